@@ -88,6 +88,8 @@ class ImgFn:
             v = self.bind[did]
             return v if isinstance(v, Poly) else None
         if did in self.loops:
+            if 'value' in self.loops[did]:
+                return self.loops[did]['value']          # descending loop: value in terms of the iteration number
             return Poly.atom(('sym', self.loops[did]['name']))
         p = self.params.get(did)
         if p is not None and not p['ct'].rstrip().endswith('*') and not p['ct'].rstrip().endswith('&'):
@@ -148,6 +150,24 @@ class ImgFn:
             raise Undecided('loop initialisation is not one declaration')
         iv = tu.kids(init)[0]
         start = self.ev().ev(tu.kids(iv)[0]) if tu.kids(iv) else None
+        if start is not None and start != Poly.const(0):
+            name = iv.get('name')
+            atom = ('sym', name)
+            self.loops[iv['id']] = {'name': name, 'node': n, 'depth': depth, 'id': iv['id']}
+            rel = self.ev().rel(cond) if isinstance(cond, dict) and cond.get('kind') else None
+            incn = tu.strip(inc) if isinstance(inc, dict) and inc.get('kind') else None
+            dec = incn is not None and tu.ref_decl(tu.kids(incn)[0]) == iv['id'] and (
+                (incn.get('kind') == 'UnaryOperator' and incn.get('opcode') == '--') or
+                (incn.get('kind') == 'CompoundAssignOperator' and incn.get('opcode') == '-=' and
+                 tu.sd(tu.strip(tu.kids(incn)[1])).get('cv') == '1'))
+            # condition v > 0 (v >= 1): normal form  1 - v <= 0
+            if dec and rel and len(rel) == 1 and rel[0] == (Poly.const(1) - Poly.atom(atom), '<='):
+                # v runs B, B-1, ..., 1: iteration l (0-based) has v = B - l
+                self.loops[iv['id']].update({'step': 1, 'bound': start, 'count': start, 'inc_extra': [],
+                                             'value': start - Poly.atom(atom)})
+                return iv['id'], body
+            del self.loops[iv['id']]
+            raise Undecided('loop `%s` neither starts at 0 and counts up nor runs from a bound down to 1' % iv.get('name'))
         if start != Poly.const(0):
             raise Undecided('loop `%s` does not start at 0' % iv.get('name'))
         name = iv.get('name')
@@ -503,8 +523,39 @@ def check_write_image(ctx, tu, f):
                             allocs.append((vd, ('array', Poly.const(int(m.group(2)) * esz), esz), list(stack)))
                             img.locals[vd['id']] = ('ptr', '@' + vd.get('name', 'buf'), Poly.const(0), esz)
                 return
+            if k == 'LambdaExpr':
+                return          # the body is walked where the lambda is called
+            if k == 'CXXOperatorCallExpr' and tu.sd(n).get('q', '').split('::')[-1] == 'operator()' and \
+                    tu.callee_fn(n) is not None and tu.body(tu.callee_fn(n)) is not None and \
+                    tu.fn_file(tu.callee_fn(n)) == tu.fn_file(f):
+                callee = tu.callee_fn(n)
+                if img.depth > 3:
+                    raise Undecided('lambda nesting too deep')
+                saved = dict(img.bind)
+                img.depth += 1
+                try:
+                    for p_, a in zip(callee.get('params', []), tu.kids(n)[2:]):
+                        v = img.ptr_value(a)
+                        if v is None:
+                            v = img.ev().ev(a)
+                        if v is None:
+                            raise Undecided('argument `%s` of the lambda has no normal form' % tu.show(a))
+                        img.bind[p_['id']] = v
+                    walk(tu.body(callee), stack)
+                finally:
+                    img.depth -= 1
+                    img.bind = saved
+                return
             if k == 'IfStmt':
                 ks_ = [c for c in n.get('inner', ()) if isinstance(c, dict) and c.get('kind')]
+                tv_ = img.ev().truth(ks_[0]) if ks_ else None
+                if tv_ is not None and len(ks_) >= 2 and not n.get('hasInit') and not n.get('hasVar'):
+                    # a compile-time condition (template argument): only the branch that exists in this instantiation
+                    if tv_:
+                        walk(ks_[1], stack)
+                    elif len(ks_) >= 3:
+                        walk(ks_[2], stack)
+                    return
                 assigns = [x for x in tu.walk(ks_[1]) if x.get('kind') == 'BinaryOperator' and x.get('opcode') == '=' and
                            isinstance(img.locals.get(tu.ref_decl(tu.kids(x)[0])), tuple) and
                            img.locals[tu.ref_decl(tu.kids(x)[0])][0] == 'ptr'] if len(ks_) >= 2 else []
@@ -1231,7 +1282,19 @@ def check_header_use(ctx, tu, f, headers=None):
                       % ', '.join(tu.show(x) for x in a[2:]), tu.loc(n), key=keyb + 'header-arguments')
         return
     fw = [(bb, ii) for bb, ii, nn in g.stmts() if nn.get('kind') == 'CallExpr' and tu.sd(nn).get('q') in ('fwrite', 'std::fwrite')]
-    if not fw or not all(g.dominates((b.id, i), (bb.id, ii)) for bb, ii in fw):
+    for bb, ii, nn in g.stmts():
+        if nn.get('kind') in ('CallExpr', 'CXXOperatorCallExpr', 'CXXMemberCallExpr'):
+            cf_ = tu.callee_fn(nn)
+            if cf_ is not None and tu.body(cf_) is not None and cf_['id'] != f['id'] and \
+                    (cf_['q'].startswith(UTIL) or 'operator()' in cf_['q']) and \
+                    any(y.get('kind') == 'CallExpr' and tu.sd(y).get('q') in ('fwrite', 'std::fwrite') for y in tu.walk(tu.body(cf_))):
+                fw.append((bb, ii))       # rows are written by a lambda / helper called here
+    reach_ = g.reachable()
+    fw = [(bb, ii) for bb, ii in fw if bb.id in reach_]      # branches removed by a compile-time condition do not count
+    if not fw:
+        ctx.undecided(R, inst, 'no fwrite of the pixel rows found (directly or in a lambda / helper)', tu.loc(n))
+        return
+    if not all(g.dominates((b.id, i), (bb.id, ii)) for bb, ii in fw):
         ctx.violation(R, inst, 'the header is not written before the pixel rows on every path', tu.loc(n), key=keyb + 'header-order')
         return
     ctx.ok(R, inst, 'fprintf(file, header, sizeX, sizeY) dominates every fwrite', tu.loc(n))
@@ -1980,6 +2043,12 @@ def ctor_summary(tu, f, memo, depth=0):
                             out[fld] = pidx[d] if d in pidx else ('expr', tu.show(args[src]))
                         else:
                             out[fld] = src
+            elif e[0] == 'I' and e[2] is not None:
+                # member initialiser: field(param)
+                init = tu.node(e[1])
+                if init is not None and init.get('kind') != 'CXXDefaultInitExpr':
+                    d = tu.ref_decl(init)
+                    out[e[3]] = pidx[d] if d in pidx else ('expr', tu.show(init))
             elif e[0] == 'S':
                 n = tu.node(e[1])
                 if n is not None and n.get('kind') == 'BinaryOperator' and n.get('opcode') == '=':
@@ -2154,6 +2223,23 @@ def check_recording(ctx, tu):
         for fld, pi in sorted(want.items()):
             ai = summ.get(fld)
             src = None
+            if ai is None and not any(fn_ for fn_ in [ctor] if tu.cfg(fn_) is None):
+                # the constructor chain never mentions the field: is it left at its default on purpose?  A field that is
+                # assigned from nothing is the recognised-wrong form only when the constructor is fully understood
+                unknown_stmts = [x for b_, i_, x in tu.cfg(ctor).stmts() if x.get('kind') in ('CallExpr', 'CXXMemberCallExpr')
+                                 and any(tu.is_this(y) or (y.get('kind') == 'UnaryOperator' and y.get('opcode') == '*')
+                                         for y in tu.walk(x) if y.get('kind') in ('CXXThisExpr', 'UnaryOperator'))]
+                if unknown_stmts and fld not in summ:
+                    helper_sets = False
+                    for x in unknown_stmts:
+                        cf_ = tu.callee_fn(x)
+                        if cf_ is None or tu.body(cf_) is None or any(
+                                y.get('kind') == 'MemberExpr' and y.get('name') == fld for y in tu.walk(tu.body(cf_))):
+                            helper_sets = True
+                    if helper_sets:
+                        ctx.undecided(R, inst, 'field `%s` may be set by a helper the constructor hands `*this` to' % fld, tu.loc(x))
+                        good = False
+                        continue
             if isinstance(ai, int) and ai < len(cargs):
                 a, aenv = rw.resolve(cargs[ai], eenv)
                 hops = 0
